@@ -44,6 +44,18 @@ def gen_cases(tier, seed):
         if c["api"] == "accessor":
             c["dims"] = rng.choice([["time", "y", "x"], ["y", "x", "time"]])
         add(c)
+    # structured family: GCV curves with two competing minima and a hump between them (default grid)
+    from .. import families
+    dgrid = [-1.8 + 0.2 * k for k in range(30)]
+    for _ in range(6 if quick else 60):
+        ys = families.find(rng, "gcv2min", dgrid)
+        if ys is None:
+            continue
+        variant = rng.choice(["wcv", "wcv", "wcvp"])
+        c = {"variant": variant, "y": [str(v) for v in ys], "nd": "-3000", "grid": [sc.fl(g) for g in dgrid], "robust": False, "api": rng.choice(["kernel", "accessor"]), "family": "gcv2min"}
+        if variant == "wcvp":
+            c["p"] = sc.fl(0.9)
+        add(c)
     for nv in (0, 1, 4, 5):       # fewer than 5 valid cells: unchanged, lambda 0
         for variant in ("wcv", "wcvp"):
             y = [-3000] * 9
